@@ -59,6 +59,10 @@ where
         LruCache::get(self, key)
     }
 
+    fn peek(&self, key: &K) -> Option<&Entry<V>> {
+        LruCache::peek(self, key)
+    }
+
     fn remove(&mut self, key: &K) -> Option<Entry<V>> {
         self.pop(key)
     }
